@@ -18,7 +18,7 @@ ID = "C19"
 MANIFEST = {
     "technique": "property-based testing (Hypothesis): grammar-generated AwkwardForth programs x input bytes x machine options, run on ForthMachine32/64 through the bridge, against an independent reference interpreter and model-free metamorphic relations; sanitizer twin; coverage-guided fuzzing (libFuzzer + ASan/UBSan) of bytes -> program + input with the metamorphic relations inside the target",
     "level_text": "Generated-input exploration. Programs (<= ~40 tokens, whole vocabulary of the language description, well-formed by construction plus a token-mutated fraction, plus the programs of the repository's own tests as a seed corpus) are compiled and executed on ForthMachine32/64 with generated input bytes and stack/recursion/output-buffer settings. Oracle 1: a pure-Python reference interpreter written from the language description must agree on the compile verdict and, at every pause point and at the end, on stack, variables, outputs, input positions, error status and ready/done flags (also across host-side call() of defined words). Oracle 2 (model-free): same result when run twice, through C++ run() vs begin+resume, when single-stepped to the end, under a generated interleaving of step/resume segments, under other output-buffer growth settings, after decompiled() is re-compiled (and decompiling is a fixed point), and between the 32- and 64-bit machine when no intermediate exceeds 32 bits. Oracle 3: every compile-time and run-time fault is an error value/exception, never a crash (ASan/UBSan twin; thorough tier: a libFuzzer campaign whose target checks step == run/resume, growth independence, determinism and decompile/recompile on every input). Held on everything generated outside the recorded known findings.",
-    "level_note": "Trusted: akmodel.forth (the language as I read it: the repository carries no AwkwardForth documentation, so the upstream language description, the error texts of ForthMachineOf::maybe_throw and tests/test_0648*/test_0781* served as the specification), the /verif bridge and its re-statement of the Python binding. Not asserted: behaviour the description is silent on (listed in ASSUMPTIONS; such programs still go through the model-free relations and the sanitizer twin); the pybind11 binding itself (src/python/forth.cpp cannot be compiled here); printed output of . cr .s .\"; literals beyond 32 bits; programs longer than ~40 tokens; output_initial_size 0 and resize factors <= 1 (maybe_resize cannot grow such a buffer); wraparound under the sanitizer build (signed overflow is undefined in C++: those programs are run in the plain flavour only); the LayoutBuilder users of the machine.",
+    "level_note": "Trusted: akmodel.forth (the language as I read it: the repository carries no AwkwardForth documentation, so the upstream language description, the error texts of ForthMachineOf::maybe_throw and tests/test_0648*/test_0781* served as the specification), the /verif bridge and its re-statement of the Python binding. Not asserted: behaviour the description is silent on (listed in ASSUMPTIONS; such programs still go through the model-free relations and the sanitizer twin); the pybind11 binding itself (src/python/forth.cpp cannot be compiled here); printed output of . cr .s .\"; literals beyond 32 bits; programs longer than ~40 (quick) / ~80 (thorough) tokens; output_initial_size 0 and resize factors <= 1 (maybe_resize cannot grow such a buffer); wraparound under the sanitizer build (signed overflow is undefined in C++: those programs are run in the plain flavour only); the LayoutBuilder users of the machine.",
 }
 RULE = ("case = generated program source + input bytes + machine width/stack/recursion/output-growth options + step/resume schedule + calls; "
         "non-trivial = the program compiled and the reference run executed at least one loop iteration or word call AND at least one read or write; "
@@ -105,7 +105,8 @@ def setup(flavour, tier):
 
 
 def strategy(tier):
-    return GF.cases()
+    # main program of up to ~30 generated items (quick) / ~60 (thorough), definitions and declarations not counted
+    return GF.cases(max_total=30 if tier == "quick" else 60)
 
 
 def case_label(case):
